@@ -11,7 +11,14 @@ for d in sorted(glob.glob('/verif/seeded/*/meta.json')):
     labels=', '.join(l.split('/')[0]+'/'+l.split('/')[1][:48] for l in now.get('labels',[])[:2])
     what=' '.join(m.get('breaks',[])[:2])[:170].replace('|','/').replace('\n',' ')
     sup=m.get('superseded')
-    nowst=(st(now)+(' (before fix d478715; superseded)' if isinstance(sup,str) and 'd478715' in sup else ' (before fix 1717b2e; superseded)') if sup and not (isinstance(sup,str) and 'b3dfe7e' in sup) else ('not evaluated (superseded by fix b3dfe7e)' if sup else st(now)))
+    import re as _re
+    fx=_re.findall(r'fix(?:es)? \(?([0-9a-f]{7})', sup) if isinstance(sup,str) else []
+    if sup and m['name'].startswith('C20-j'):
+        nowst='not evaluated (superseded by fix b3dfe7e)'
+    elif sup:
+        nowst=st(now)+' (before fix '+(fx[0] if fx else '1717b2e')+'; superseded)'
+    else:
+        nowst=st(now)
     rows.append(f"| {m['name']} | {m['property']} | {st(first)} | {nowst} | {labels} |")
 print("| seeded change | property | first run | now | assertion(s) that fire |")
 print("|---|---|---|---|---|")
